@@ -15,6 +15,7 @@
 #define MV_MAXDEV    6
 #define MV_MAXSTEPS  24000
 #define MV_OBS_SZ    2048
+#define MV_REF_SZ    1024
 
 enum { MV_OK = 0, MV_VIOLATION, MV_DEADLOCK, MV_LIVELOCK, MV_CRASH, MV_EXIT,
        MV_TIMEOUT, MV_DIVERGENCE, MV_ENGINE_ERROR, MV_N_VERDICTS };
@@ -96,6 +97,10 @@ typedef struct {
   void (*run)(int tier, int prog);       /* runs in a forked child */
   const char * const * cover_names;      /* names of coverage bits, NULL-terminated */
   uint64_t (*cover_required)(int tier);  /* bits that must be hit over the whole run */
+  /* optional (differential harnesses): produce the reference output of a program, run once per program in a
+     separate process before its first controlled execution; the child reads it through mv_reference */
+  void (*reference)(int tier, int prog, char * out, size_t n);
 } mc_harness_t;
+extern const char * mv_reference;
 
 extern mc_harness_t mc_harness;
